@@ -17,7 +17,9 @@ use sha2::{Digest, Sha256};
 use std::process::Command;
 
 const P: &str = "C18";
-pub const NOPAR_BIN: &str = "/verif/harness/target-nopar/release/pcverif";
+pub fn nopar_bin() -> String {
+    format!("{}/harness/target-nopar/release/pcverif", crate::engine::verif_dir())
+}
 
 /// SHA-256 over every deterministic output of a scenario.
 pub fn digest_scn<S: Scheme>(c: &Scn, tier: Tier) -> String {
@@ -107,9 +109,9 @@ struct Cfg {
 }
 
 fn configs() -> Vec<Cfg> {
-    let me = std::env::current_exe().map(|p| p.display().to_string()).unwrap_or_else(|_| "/verif/harness/target/release/pcverif".into());
+    let me = std::env::current_exe().map(|p| p.display().to_string()).unwrap_or_else(|_| format!("{}/harness/target/release/pcverif", crate::engine::verif_dir()));
     let mut v: Vec<Cfg> = [1usize, 2, 3, 8, 16, 16, 16].iter().enumerate().map(|(i, t)| Cfg { name: format!("parallel/{t}-threads#{i}"), bin: me.clone(), threads: *t }).collect();
-    v.push(Cfg { name: "no-parallel-feature".into(), bin: NOPAR_BIN.into(), threads: 1 });
+    v.push(Cfg { name: "no-parallel-feature".into(), bin: nopar_bin(), threads: 1 });
     v
 }
 
@@ -137,8 +139,8 @@ fn crosses_parallel_loop(c: &Scn) -> bool {
 
 impl DiffUnit {
     fn compare(&self, list: &[Scn], tier: Tier, tag: &str) -> Result<Option<(usize, String, String)>, String> {
-        let dir = "/verif/harness/target/c18";
-        std::fs::create_dir_all(dir).map_err(|e| e.to_string())?;
+        let dir = format!("{}/harness/target/c18", crate::engine::verif_dir());
+        std::fs::create_dir_all(&dir).map_err(|e| e.to_string())?;
         let file = format!("{dir}/{}-{tag}.json", self.scheme);
         std::fs::write(&file, serde_json::to_string(list).unwrap()).map_err(|e| e.to_string())?;
         let cfgs = configs();
@@ -165,8 +167,8 @@ impl Unit for DiffUnit {
         let n = if cfg.tier.is_quick() { self.quick } else { self.thorough };
         let list = scenarios(mix_seed(cfg.seed, &[self.scheme]), n);
         let mut rep = UnitReport { name: self.name(), ..Default::default() };
-        if !std::path::Path::new(NOPAR_BIN).exists() {
-            println!("INCONCLUSIVE: {NOPAR_BIN} is missing (run ./run.sh setup)");
+        if !std::path::Path::new(&nopar_bin()).exists() {
+            println!("INCONCLUSIVE: {} is missing (run ./run.sh setup)", nopar_bin());
             std::process::exit(2);
         }
         let ncfg = configs().len() as u64;
